@@ -215,6 +215,54 @@ func HarnessC10Slow(wcap, m int) {
 	verifrt.Cover("end", true)
 }
 
+// HarnessC09Slow: a pipelining client that reads slowly. m GETs are pipelined; the node answers them one
+// by one while the client's socket accepts a solver-chosen amount per write (nothing / 3 bytes /
+// everything) and writable events in between drain a solver-chosen part of the backlog (static outbound
+// buffer of `wcap` bytes, so the backlog spills into the overflow list). Then the client catches up:
+// the proxy gets writable events for as long as it has asked the poller for them. Every completed reply
+// must then have been delivered - byte-exact, in order - and nothing may be left queued.   [C09, C01, C02, C19]
+func HarnessC09Slow(wcap, m int) {
+	o := core.VerifDefaultOptions()
+	o.WriteBufferCap = wcap
+	w, _ := verifWorld2(o)
+	c := w.NewClient("10.0.0.1:5000")
+	var in []byte
+	var replies [][]byte
+	for i := 0; i < m; i++ {
+		k := []byte{'{', 'b', '}', byte('0' + i), 'x'}
+		in = append(in, core.VerifEncode([]byte("get"), k)...)
+		replies = append(replies, bulk([]byte{'v', byte('0' + i), verifrt.Byte("val"), 'a', 'b', 'c', 'd', 'e', byte('0' + i)}))
+	}
+	w.Feed(c, in)
+	w.RunTasks()
+	verifrt.Assert(len(w.Servers) == 1, "one_backend")
+	s := w.Servers[0]
+	var want []byte
+	accept := []int{0, 3, -1}
+	drain := []int{-2, 5, -1}
+	for i := 0; i < m; i++ {
+		verifrt.LimitWrites(c.Fd, accept[verifrt.Choice("socket_accepts", len(accept))])
+		w.Feed(s, replies[i])
+		want = append(want, replies[i]...)
+		if d := drain[verifrt.Choice("writable_event_drains", len(drain))]; d != -2 {
+			verifrt.LimitWrites(c.Fd, d)
+			w.Writable(c)
+		}
+	}
+	for i := 0; i < 80 && (c.OutboundBuffered() > 0 || c.DoneHeadCount() > 0) && verifrt.WantsWrite(c.Fd); i++ {
+		verifrt.LimitWrites(c.Fd, 7)
+		w.Writable(c)
+	}
+	verifrt.LimitWrites(c.Fd, -1)
+	w.Writable(c)
+	out := w.Sent(c)
+	verifrt.ObserveBytes("client", out)
+	verifrt.Assert(c.DoneHeadCount() == 0 && c.InMsgCount() == 0, "C09_no_completed_reply_left_queued_once_the_client_has_caught_up")
+	verifrt.Assert(len(out) == len(want) && isPrefix(out, want), "slow_reader_gets_every_reply_complete_in_order")
+	verifrt.Assert(c.OutboundBuffered() == 0 && c.Opened(), "backlog_drained_connection_open")
+	verifrt.Cover("end", true)
+}
+
 // bigBulk: a bulk reply of n payload bytes: a concrete repeating pattern that differs per reply
 // (so that bytes of one reply showing up in another are visible) with arbitrary bytes at the first,
 // middle and last position.
@@ -237,6 +285,8 @@ func bigBulk(n int, fill byte, label string) []byte {
 //           answers (n2 bytes): the client receives reply(ka) then reply(kb), byte-exact  [C01, C02, C03]
 //   mode 1: one GET answered with the big reply while the client reads slowly: the socket accepts a
 //           solver-chosen amount at first and the backlog is drained in 4 KiB steps            [C02, C19]
+//   mode 2: a slow client's big reply (n bytes) is backlogged; another client is then served twice (replies of
+//           n2 bytes, request objects recycled); the slow client drains: each gets its own bytes  [C03, C02]
 //   rcap: size of the event loop's read buffer (production: 64 KiB)
 func HarnessBig(mode, n, n2, rcap int) {
 	o := core.VerifDefaultOptions()
@@ -264,6 +314,39 @@ func HarnessBig(mode, n, n2, rcap int) {
 		verifrt.Cover("end", true)
 		return
 	}
+	if mode == 2 {
+		// a slow client's big reply is backlogged in its outbound buffer; meanwhile another client is
+		// served (its request reuses the recycled request object); then the slow client drains
+		w.Feed(c, core.VerifEncode([]byte("get"), kb))
+		w.RunTasks()
+		A := w.ByAddr["A:1"][0]
+		ra := bigBulk(n, 'A', "va")
+		verifrt.LimitWrites(c.Fd, []int{0, 1, 300}[verifrt.Choice("socket_accepts_at_first", 3)])
+		w.FeedAll(A, ra)
+		verifrt.Assert(c.OutboundBuffered() > 0, "harness_backlog_exists")
+		c2 := w.NewClient("10.0.0.2:5000")
+		for round := 0; round < 2; round++ {
+			before := len(w.Sent(c2))
+			w.Feed(c2, core.VerifEncode([]byte("get"), kb))
+			w.RunTasks()
+			rb := bigBulk(n2, 'k'+byte(round), "vb")
+			w.FeedAll(A, rb)
+			verifrt.Assert(verifBytesEq(w.Sent(c2)[before:], rb), "other_client_gets_its_own_reply")
+		}
+		for i := 0; i < 2*(n/4096+2) && c.OutboundBuffered() > 0; i++ {
+			verifrt.LimitWrites(c.Fd, 4096)
+			w.Writable(c)
+		}
+		verifrt.LimitWrites(c.Fd, -1)
+		w.Writable(c)
+		out := w.Sent(c)
+		verifrt.ObserveInt("client_bytes", len(out))
+		verifrt.Assert(len(out) == len(ra), "slow_reader_gets_the_whole_reply")
+		verifrt.Assert(verifBytesEq(out, ra), "slow_reader_gets_its_own_reply_byte_exact")
+		verifrt.Assert(c.OutboundBuffered() == 0 && c.Opened() && c2.Opened(), "backlog_drained_connections_open")
+		verifrt.Cover("end", true)
+		return
+	}
 	w.Feed(c, core.VerifEncode([]byte("get"), kb))
 	w.RunTasks()
 	A := w.ByAddr["A:1"][0]
@@ -287,6 +370,7 @@ func HarnessBig(mode, n, n2, rcap int) {
 
 func init() {
 	verifrt.Register("HarnessBig", func(p []int64) { HarnessBig(int(p[0]), int(p[1]), int(p[2]), int(p[3])) })
+	verifrt.Register("HarnessC09Slow", func(p []int64) { HarnessC09Slow(int(p[0]), int(p[1])) })
 	verifrt.Register("HarnessC10Slow", func(p []int64) { HarnessC10Slow(int(p[0]), int(p[1])) })
 	verifrt.Register("HarnessC02Slow", func(p []int64) { HarnessC02Slow(int(p[0])) })
 	verifrt.Register("HarnessC02Rsp", func(p []int64) { HarnessC02Rsp(int(p[0]), int(p[1]), int(p[2])) })
